@@ -12,7 +12,8 @@ import (
 )
 
 // identity checks, for every (subscriber, rating group):
-//   stored balance + held reservation == credited - unitCost * online usage
+//
+//	stored balance + held reservation == credited - unitCost * online usage
 func checkIdentity(w *World, v *h.Verdict, step int, res *Result) bool {
 	for si, st := range w.subs {
 		snap := verifapi.Snapshot(st.supi)
